@@ -79,9 +79,9 @@ class Binary:
         return None if v is None else v + self.base
 
 
-def compile_rust(name, source, cfg, side=None):
+def compile_rust(name, source, cfg, side=None, files=None):
     """Compile `source` as <hash>/<name>.rs with cfg; returns Binary. Cached."""
-    h = common.sha(name, source, cfg.key())[:16]
+    h = common.sha(name, source, cfg.key(), *[f'{k}\0{v}' for k, v in sorted((files or {}).items())])[:16]
     d = os.path.join(BUILD, f'{name}-{h}')
     out = os.path.join(d, name if cfg.crate_type == 'bin' else f'lib{name}.so')
     b = Binary(d, name, cfg, side)
@@ -94,6 +94,11 @@ def compile_rust(name, source, cfg, side=None):
     os.makedirs(d, exist_ok=True)
     with open(b.src, 'w') as f:
         f.write(source)
+    for rel, content in (files or {}).items():
+        fp = os.path.join(d, rel)
+        os.makedirs(os.path.dirname(fp), exist_ok=True)
+        with open(fp, 'w') as f:
+            f.write(content)
     if side is not None:
         with open(os.path.join(d, 'side.json'), 'w') as f:
             json.dump(side, f)
